@@ -22,7 +22,7 @@ import (
 // The algorithm for collecting PV is based on the one described here:
 // https://web.archive.org/web/20070808093935/http://www.brucemo.com/compchess/programming/pv.htm
 type Search struct {
-	bestLineAtDepth [MaxSearchDepth][]Move
+	bestLineAtDepth [maxLineLength][]Move
 	stop            chan bool
 	interrupted     bool
 }
@@ -35,7 +35,7 @@ var ProfileFile *os.File
 func NewSearch() *Search {
 	search := &Search{}
 	for i := 0; i < len(search.bestLineAtDepth); i++ {
-		search.bestLineAtDepth[i] = make([]Move, MaxSearchDepth-i)
+		search.bestLineAtDepth[i] = make([]Move, maxLineLength-i)
 	}
 	// capacity 1: `stop` leaves its request here without waiting for the search to poll
 	search.stop = make(chan bool, 1)
@@ -181,8 +181,15 @@ func (search *Search) alphaBeta(aPosGen *Generator, targetDepth, depth, alpha, b
 }
 
 func updateKillerMoves(currPly int16, move Move) {
-	killerMoves[currPly][1] = killerMoves[currPly][0]
-	killerMoves[currPly][0] = move
+	slot := killerSlot(currPly)
+	killerMoves[slot][1] = killerMoves[slot][0]
+	killerMoves[slot][0] = move
+}
+
+// Index into killerMoves for a game ply. Games (and FEN move counters) can be longer than the table,
+// so plies share slots modulo its size instead of running past its end.
+func killerSlot(ply int16) int {
+	return int(uint16(ply)) % killerMovesMaxPly
 }
 
 func (search *Search) startAlphaBeta(aPosGen *Generator, targetDepth int, currBestLine *[]Move,
